@@ -124,6 +124,18 @@ func runC01(r *ev.Run) {
 		}
 		if bulk > 0 {
 			probe()
+		} else if ci%4 == 1 {
+			// the first operations on a fresh, EMPTY index are a search, a Flush and a failing Remove
+			probe()
+			if err := idx.Flush(); err != nil {
+				rep("flat.flush-error", "Flush of an empty index: "+err.Error())
+			}
+			if err := idx.Remove(*comet.NewVectorNodeWithID(ids.absent(), nil)); err == nil {
+				rep("flat.remove-absent-succeeds", "Remove on an empty index returned nil")
+			}
+			probe()
+			hist = append(hist, histOp{Op: "search+flush+remove on the empty index"})
+			r.Count("cases:started-with-operations-on-the-empty-index", 1)
 		}
 		for op := 0; op < nOps; op++ {
 			c := rng.IntN(10)
@@ -177,6 +189,13 @@ func runC01(r *ev.Run) {
 				m.flush()
 				flushes++
 				r.Count("ops:flush", 1)
+				if rng.IntN(3) == 0 { // Flush is idempotent: a second one right away changes nothing
+					if err := idx.Flush(); err != nil {
+						rep("flat.flush-error", "second Flush in a row: "+err.Error())
+					}
+					hist = append(hist, histOp{Op: "flush"})
+					r.Count("ops:flush-twice-in-a-row", 1)
+				}
 			default:
 				if rng.IntN(3) == 0 {
 					// a rejected Add (wrong dimension; zero vector under cosine) changes nothing: the probes that follow
